@@ -17,6 +17,17 @@ CHECKS = {
              "counterexample that is replayed concretely. Not a proof: shapes beyond the enumerated bound are outside.",
         note="Trusts CrossHair's path exhaustion and z3; names of length 1 (only equality between names is inspected); "
              "tree shapes enumerated to nesting depth 1 exhaustively, depth 2 sampled by VERIF_SEED."),
+    "C16": dict(
+        level="model_checking", engine="chx", design="DESIGN.md section 4 C16",
+        technique="CrossHair symbolic execution (z3) of NodeVisitor/NodeTransformer/dataclass equality and the shipped "
+                  "pure-Python visitors, one condition per tree shape and assertion family, vs independent pre-order / "
+                  "replacement oracles",
+        text="Bounded model checking of the real visitor base classes: per enumerated tree shape CrossHair+z3 covers all "
+             "leaf strings (1 code point), operator choices, the choice of overridden handler kind and of shipped visitor; "
+             "counterexamples are replayed concretely.",
+        note="Trusts CrossHair path exhaustion and z3; names hashed by the rewriter / regex-scanned by the Athena dialect are "
+             "symbolic picks from a 3-name pool (a symbolic str never closes there); ORM visitors' no-mutation clause is "
+             "exercised by the ORM properties, not here."),
 }
 
 NOT_YET = {}
